@@ -10,6 +10,7 @@ import (
 	"encoding/hex"
 	"encoding/json"
 	"fmt"
+	"io"
 	"io/fs"
 	"math"
 	"math/rand/v2"
@@ -419,6 +420,24 @@ func Codec(s string) retriever.CompressionCodec {
 	return retriever.CompressionNone
 }
 
+// rereadable is a configuration "file" that can be read to its end any number of times (an options value
+// that is handed to several Dump calls must not arrive empty at the second one).
+type rereadable struct {
+	s string
+	r *strings.Reader
+}
+
+func (f *rereadable) Read(p []byte) (int, error) {
+	if f.r == nil {
+		f.r = strings.NewReader(f.s)
+	}
+	n, err := f.r.Read(p)
+	if err == io.EOF {
+		f.r = nil
+	}
+	return n, err
+}
+
 func DumpOptions(dir string, o Opts) retriever.DumpOptions {
 	d := retriever.DefaultDumpOptions(dir)
 	d.Compression = Codec(o.Codec)
@@ -430,7 +449,7 @@ func DumpOptions(dir string, o Opts) retriever.DumpOptions {
 	if o.Salt != "" {
 		d.Scrub, d.Salt = retriever.ScrubFull, o.Salt
 		if o.ScrubCfg > 0 {
-			d.ScrubConfig = strings.NewReader(ScrubConfigs[(o.ScrubCfg-1)%len(ScrubConfigs)])
+			d.ScrubConfig = &rereadable{s: ScrubConfigs[(o.ScrubCfg-1)%len(ScrubConfigs)]}
 		}
 	}
 	return d
